@@ -206,7 +206,7 @@ pub fn gen_map(rng: &mut Rng, sh: &Shape) -> MapText {
     m.pre.push("[Difficulty]".into());
     m.pre.push(format!("HPDrainRate:{}", r1(rng.frange(0.0, 10.0))));
     if sh.mode == 3 && rng.chance(0.05) {
-        m.pre.push(format!("CircleSize:{}", *rng.pick(&[0.0, 0.4, 12.0, 18.0, 19.0, 30.0])));
+        m.pre.push(format!("CircleSize:{}", *rng.pick(&[0.0, 0.4, 12.0, 18.0, 19.0, 30.0, 2.5, 4.5, 6.5, 5.5, 3.49, 8.5])));
     } else if sh.mode == 3 {
         m.pre.push(format!("CircleSize:{keys}"));
     } else {
